@@ -1,5 +1,5 @@
 ---------------------------- MODULE MC_ErrorRender ----------------------------
-EXTENDS ErrorRender, Json
+EXTENDS ErrorRender, Json, IOUtils
 A(rs) == [absent |-> FALSE, malformed |-> FALSE, raw |-> "", msfx |-> "", ranges |-> rs]
 Bad(raw, sfx) == [absent |-> FALSE, malformed |-> TRUE, raw |-> raw, msfx |-> sfx, ranges |-> <<>>]
 Absent == [absent |-> TRUE, malformed |-> FALSE, raw |-> "", msfx |-> "", ranges |-> <<>>]
@@ -31,6 +31,14 @@ MCAccepts == {
     A(<<R("application", "x-www-form-urlencoded", 10)>>),
     A(<<R("multipart", "form-data", 10)>>),
     A(<<R("multipart", "*", 10), R("application", "json", 5)>>),
+    \* the same media ranges in other spellings (media types are case-insensitive)
+    A(<<Spelled(Range("application", "vnd.verif+json", 10, "json"), "sfx")>>),       \* application/vnd.verif+JSON
+    A(<<Spelled(Range("application", "vnd.verif+xml", 10, "xml"), "upper")>>),       \* APPLICATION/VND.VERIF+XML
+    A(<<Spelled(Range("application", "vnd.verif+json", 10, "json"), "mixed")>>),
+    A(<<Spelled(Range("application", "vnd.verif+xml", 10, "xml"), "sfx"), Spelled(Range("application", "vnd.verif+json", 5, "json"), "upper")>>),
+    A(<<R("image", "png", 10), Spelled(Range("application", "vnd.verif.v2+xml", 3, "xml"), "mixed")>>),
+    Bad("FOO+JSON", "json"),
+    Bad("Bar+Xml;;", "xml"),
     Bad("garbage", ""),
     Bad("foo+json", "json"),
     Bad("bar+xml;;", "xml") }
@@ -58,10 +66,12 @@ MCClassErrors ==
 MCClassAccepts == {Absent, A(<<R("application", "json", 10)>>), A(<<R("text", "xml", 10)>>),
                    A(<<R("application", "x-verif-tag", 10), R("application", "json", 9)>>),
                    A(<<R("application", "x-www-form-urlencoded", 10)>>), A(<<R("image", "png", 10)>>),
-                   A(<<Range("application", "vnd.verif+json", 10, "json")>>)}
+                   A(<<Range("application", "vnd.verif+json", 10, "json")>>),
+                   A(<<Spelled(Range("application", "vnd.verif+json", 10, "json"), "upper")>>)}
 MCClassExtra == {<<>>, <<TAG>>}
 MCErrors == {E(d, c, l) : d \in BOOLEAN, c \in BOOLEAN, l \in BOOLEAN}
 MCErrorsQ == {E(FALSE, FALSE, FALSE), E(TRUE, TRUE, TRUE), E(TRUE, FALSE, TRUE)}
+MCWrongRender == IF "WRONG_RENDER" \in DOMAIN IOEnv THEN IOEnv.WRONG_RENDER ELSE "none"
 XRenderError == Done = FALSE /\ RenderError
 MCNext == XRenderError
 Emit == Done => PrintT(ToJson([acc |-> acc, xmlOn |-> xmlOn, extra |-> extra, err |-> err, out |-> out]))
